@@ -244,6 +244,21 @@ fn fmt_strategy() -> BoxedStrategy<(Option<String>, bool)> {
     .boxed()
 }
 
+/// lengths far beyond anything a version string can hold (> 65535) may be refused with an error
+/// (Tera itself refuses integer literals above i64); what they may not do is panic
+fn extreme_refused(ron: &str, t: &str, length: Option<u64>, cx: &mut Cx) -> Result<bool, Bad> {
+    if !length.is_some_and(|l| l > 65535) {
+        return Ok(false);
+    }
+    match render_tpl(ron, t) {
+        cli::Run::Panic(p) => fail(format!("template {t:?} panicked: {p}")),
+        cli::Run::Ok(_) => Ok(false),
+        _ => {
+            cx.label("extreme-length-refused");
+            Ok(true)
+        }
+    }
+}
 fn check_fun(c: &FunCase, cx: &mut Cx) -> Res {
     let z = MZerv {
         schema: MSchema { core: vec![MComp::Var(MVar::Major)], ..Default::default() },
@@ -258,6 +273,9 @@ fn check_fun(c: &FunCase, cx: &mut Cx) -> Res {
             cx.label("hash");
             let args = length.map(|l| format!(", length={l}")).unwrap_or_default();
             let t = format!("{{{{ hash(value=bumped_branch{args}) }}}}");
+            if extreme_refused(&ron, &t, *length, cx)? {
+                return Ok(());
+            }
             let out = probe(&ron, &t)?;
             let l = length.unwrap_or(7);
             cx.note(|| format!("hash({v:?}, {length:?}) = {out}"));
@@ -276,6 +294,9 @@ fn check_fun(c: &FunCase, cx: &mut Cx) -> Res {
                 args.push_str(&format!(", allow_leading_zero={a}"));
             }
             let t = format!("{{{{ hash_int(value=bumped_branch{args}) }}}}");
+            if extreme_refused(&ron, &t, *length, cx)? {
+                return Ok(());
+            }
             let out = probe(&ron, &t)?;
             let l = length.unwrap_or(7);
             cx.note(|| format!("hash_int({v:?}, {length:?}, {allow_zero:?}) = {out}"));
@@ -289,6 +310,9 @@ fn check_fun(c: &FunCase, cx: &mut Cx) -> Res {
         Fun::Prefix { length } => {
             cx.label("prefix");
             let args = length.map(|l| format!(", length={l}")).unwrap_or_default();
+            if extreme_refused(&ron, &format!("{{{{ prefix(value=bumped_branch{args}) }}}}"), *length, cx)? {
+                return Ok(());
+            }
             let out = probe(&ron, &format!("{{{{ prefix(value=bumped_branch{args}) }}}}"))?;
             let l = length.unwrap_or(10) as usize;
             let want: String = v.chars().take(l).collect();
@@ -383,7 +407,7 @@ pub fn property() -> Property {
         "function-contracts",
         (40_000, 800_000),
         |_| {
-            let len = || proptest::option::weighted(0.8, prop_oneof![4 => 0u64..20, 1 => 20u64..70, 1 => Just(1000u64)]);
+            let len = || proptest::option::weighted(0.8, prop_oneof![8 => 0u64..20, 2 => 20u64..70, 1 => Just(1000u64), 1 => crate::gens::pick(&[255u64, 256, 65535, 65536, 4294967295, 4294967296, 99999999999, u64::MAX])]);
             let fun = prop_oneof![
                 2 => len().prop_map(|length| Fun::Hash { length }),
                 2 => (len(), proptest::option::of(any::<bool>())).prop_map(|(length, allow_zero)| Fun::HashInt { length, allow_zero }),
